@@ -564,6 +564,8 @@ def rexpr_text(e):
         return '(-%s)' % rexpr_text(e[1])
     if k == 'pow':
         return '((%s)^%d)' % (rexpr_text(e[1]), e[2])      # `f(x)^2` parses as f(x^2) in fend
+    if k == 'powe':
+        return '((%s)^(%s))' % (rexpr_text(e[1]), rexpr_text(e[2]))
     if k in ('floor', 'ceil', 'round'):
         return '%s(%s)' % (k, rexpr_text(e[1]))
     op = {'add': '+', 'sub': '-', 'mul': '*', 'div': '/'}[k]
@@ -578,6 +580,8 @@ def rexpr_sx(e):
         return [Sym('pi')]
     if k == 'pow':
         return [Sym('pow'), rexpr_sx(e[1]), e[2]]
+    if k == 'powe':
+        return [Sym('powe'), rexpr_sx(e[1]), rexpr_sx(e[2])]
     return [Sym(k)] + [rexpr_sx(x) for x in e[1:]]
 
 
@@ -602,6 +606,15 @@ def rexpr_true(e):
         if e[2] == 0 and v.is_zero():
             raise ZeroDivisionError
         return v ** e[2], u
+    if k == 'powe':
+        v, u = rexpr_true(e[1])
+        w, u2 = rexpr_true(e[2])
+        n = w.rational()
+        if n is None or n.denominator != 1 or n < 0 or n > 6:
+            raise Undecided
+        if n == 0 and v.is_zero():
+            raise ZeroDivisionError
+        return v ** int(n), u or u2
     if k in ('floor', 'ceil', 'round'):
         v, u = rexpr_true(e[1])
         from math import floor, ceil
@@ -655,6 +668,12 @@ def check_real(c):
             [r.choice(['floor', 'ceil', 'round']), ['div', kpi(), kpi()]],
             ['pow', kpi(), r.choice([0, 1, 2, 3])], ['pow', ['div', L(2), PI], 2],
             ['sub', ['pow', PI, 2], ['mul', PI, PI]],
+            # an approximate EXPONENT whose value is a small natural number, exact base
+            ['powe', L(r.randrange(2, 5)), ['floor', kpi()]],
+            ['powe', L(r.randrange(2, 5)), ['approx', L(r.randrange(0, 4))]],
+            ['powe', L(r.randrange(2, 5)), ['floor', ['add', L(r.randrange(1, 4)), ['div', L(1), PI]]]],
+            ['powe', kpi(), ['floor', ['div', L(r.randrange(2, 9)), L(2)]]],
+            ['powe', L(Fraction(r.randrange(1, 5), 2)), ['sub', ['add', ['div', L(1), PI], L(2)], ['div', L(1), PI]]],
         ]
     exprs = fam + [gen_rexpr(r, r.choice([2, 2, 3, 3])) for _ in range(n)]
     exprs = [e for e in exprs if rexpr_text(e).count('pi') <= 4]      # keeps the unreduced 64-digit stand-ins for pi from piling up
@@ -692,6 +711,8 @@ def check_real(c):
             elif not (isinstance(pm, list) and pm[0] == b'err'):
                 c.violation('real-model-differs', {'kind': 'impl-vs-model', 'op': 'rflag', 'expr': t, 'impl': got, 'model': model[i]}, no_input=True)
             continue
+        if isinstance(pm, list) and pm[0] == b'err' and pm[1] == b'ModelUnmodelled':
+            pm = None           # exponent that is not a natural number: outside the Real-layer model
         if got[0] == 'crash' and 'hang' in str(got[1]):
             c.notes.append('slow (>10 s) evaluation skipped: ' + t[:120])
             continue
@@ -725,6 +746,8 @@ def check_real(c):
         # ---- correspondence: pattern value and flag
         if in_known and any(k.get('class') == KNOWN_INTFN and k.get('status', 'open') == 'open' for k in c.known):
             continue        # the mirror is deliberately bug-compatible there
+        if pm is None:
+            continue
         if not model_ok:
             c.violation('real-model-differs', {'kind': 'impl-vs-model', 'op': 'rflag', 'expr': t, 'impl': got, 'model': model[i]}, no_input=True)
             continue
@@ -763,6 +786,288 @@ def check_real(c):
                 if not c.known_finding(KNOWN_INTFN):
                     c.violation('unmarked-integer-function-misstates-value', {'kind': 'impl-vs-spec', 'op': 'eval', 'expr': rexpr_text(e), 'impl': got,
                                                                               'true_value': None if rv is None else str(rv)})
+
+
+# ---------------------------------------------------------------------------
+# complex values: both parts shown
+
+def fend_pi_rational(c):
+    pio = F.res_text(c.impl('fmt', [sx([Sym('eval'), 0, cps('pi to fraction')])])[0])
+    try:
+        return Fraction(pio[1].replace('approx. ', ''))
+    except Exception:
+        c.violation('pi-approximation-unreadable', {'kind': 'impl-crash', 'op': 'eval', 'expr': 'pi to fraction', 'impl': pio})
+        return None
+
+
+def check_complex(c):
+    r = c.rng
+    quick = c.tier == 'quick'
+    piq = fend_pi_rational(c)
+    if piq is None:
+        return
+    bases = [(5, 10), (5, 10), (5, 2), (5, 16), (5, 36), (5, 7), (3, 16), (4, 12)]
+
+    def term_den(b):        # a denominator whose expansion terminates in base b
+        d = 1
+        for f in F.prime_factors(b):
+            d *= f ** r.randrange(0, 4)
+        return max(d, 1)
+
+    def nonterm_den(b):
+        while True:
+            d = r.choice([3, 7, 9, 11, 13, 17, 6, 14, 15, 21, 22, 26, 35, 37, 97])
+            if not F.terminates(d // gcd(d, 1), b):
+                return d
+
+    cases = []     # (re, re_pi, im, im_pi, vexact, bk, style, comma, kind)
+    for _ in range(700 if quick else 12000):
+        bk = r.choice(bases)
+        b = F.base_val(bk)
+        shape = r.choice(['re-term/im-cut', 're-cut/im-term', 'both-term', 'both-cut', 'pi-im', 'pi-re', 'im-only', 'int-parts'])
+        num = lambda: r.randrange(1, 10 ** r.choice([1, 2, 4, 9]))
+        tq = lambda: Fraction(num(), term_den(b))
+        nq = lambda: Fraction(r.randrange(1, 60), nonterm_den(b))
+        re_pi = im_pi = False
+        if shape == 're-term/im-cut':
+            re, im = tq(), nq()
+        elif shape == 're-cut/im-term':
+            re, im = nq(), tq()
+        elif shape == 'both-term':
+            re, im = tq(), tq()
+        elif shape == 'both-cut':
+            re, im = nq(), nq()
+        elif shape == 'pi-im':
+            re, im, im_pi = tq(), Fraction(r.randrange(1, 9), r.randrange(1, 5)), True
+        elif shape == 'pi-re':
+            re, im, re_pi = Fraction(r.randrange(1, 9), r.randrange(1, 5)), tq(), True
+        elif shape == 'im-only':
+            re, im = Fraction(0), r.choice([tq(), nq(), Fraction(1)])
+        else:
+            re, im = Fraction(num()), Fraction(r.choice([1, 1, num()]))
+        if r.random() < 0.4:
+            re = -re
+        if r.random() < 0.4:
+            im = -im
+        if re_pi or im_pi or r.random() < 0.75:
+            st = (r.choice(['dp', 'sf']), r.choice([0, 1, 2, 3, 5, 10, 20]) if r.random() < 0.8 else r.randrange(0, 40))
+            if st == ('sf', 0):
+                st = ('sf', 1)
+        else:
+            st = r.choice(['auto', 'float', 'exact', 'fraction', 'mixed_fraction'])
+        cases.append((re, re_pi, im, im_pi, r.random() < 0.9, bk, st, r.random() < 0.2, shape))
+    il, ml = [], []
+    for (re, re_pi, im, im_pi, vex, bk, st, comma, shape) in cases:
+        t, n = F.style_tag(st)
+        raw = lambda v: [int(v < 0), F.limbs(abs(v.numerator)), F.limbs(v.denominator), int(vex), bk[0], bk[1]]
+        il.append(sx([Sym('fmt-cx'), raw(re), int(re_pi), raw(im), int(im_pi), t, n, int(comma)]))
+        ml.append(sx([Sym('fmt-cx'), raw(re * piq if re_pi else re), int(re_pi), raw(im * piq if im_pi else im), int(im_pi), t, n, int(comma)]))
+    impl = c.impl('fmt', il)
+    model = c.model('fmt', ml)
+    for i, (re, re_pi, im, im_pi, vex, bk, st, comma, shape) in enumerate(cases):
+        c.note_case('cx:%s:%s:%s:%s:%s:%s:%d:%d' % (re, re_pi, im, im_pi, bk, st, comma, vex), True, 'complex:' + shape)
+        rv = re * piq if re_pi else re
+        iv = im * piq if im_pi else im
+        t, ex = F.render_complex(rv, iv, st, bk, comma, vex, re_pi, im_pi)
+        want = F.shown(t, ex)
+        got = F.res_text(impl[i])
+        if got != ('ok', want):
+            c.violation('complex-rendering-or-marker-wrong', {'kind': 'impl-vs-spec', 'op': 'fmt-cx', 'line': il[i], 're': str(re), 're_is_pi_multiple': re_pi,
+                                                              'im': str(im), 'im_is_pi_multiple': im_pi, 'style': F.style_text(st), 'base': bk,
+                                                              'value_exact_flag': vex, 'impl': got, 'expected': want})
+        elif impl[i] != model[i]:
+            c.violation('fmt-cx-model-differs', {'kind': 'impl-vs-model', 'op': 'fmt-cx', 'line': ml[i], 'impl': impl[i], 'model': model[i]}, no_input=True)
+    c.sample({'op': 'fmt-cx', 'line': il[3], 'impl': F.res_text(impl[3])})
+    # L2: through evaluate
+    l2 = []
+    for (re, re_pi, im, im_pi, vex, bk, st, comma, shape) in cases[:(150 if quick else 2500)]:
+        if not vex or bk[0] != 5 or not isinstance(st, tuple) or re == 0:
+            continue
+        part = lambda v, is_pi: ('(%d/%d)' % (abs(v.numerator), v.denominator)) + (' pi' if is_pi else '')
+        e = '%s%s %s %s i' % ('-' if re < 0 else '', part(re, re_pi), '-' if im < 0 else '+', part(im, im_pi))
+        l2.append(('(%s) to base %d to %d %s' % (e, bk[1], st[1], st[0]), re, re_pi, im, im_pi, bk, st, comma))
+    lo = c.impl('fmt', [sx([Sym('eval'), int(x[7]), cps(x[0])]) for x in l2])
+    for (e, re, re_pi, im, im_pi, bk, st, comma), o in zip(l2, lo):
+        c.note_case('cxL2:' + e, True, 'complex:L2')
+        t, ex = F.render_complex(re * piq if re_pi else re, im * piq if im_pi else im, st, bk, comma, True, re_pi, im_pi)
+        got = F.res_text(o)
+        if got != ('ok', F.shown(t, ex)):
+            c.violation('L2-complex-rendering-or-marker-wrong', {'kind': 'impl-vs-spec', 'op': 'eval', 'expr': e, 'comma': comma, 'impl': got,
+                                                                 'expected': F.shown(t, ex)})
+
+
+# ---------------------------------------------------------------------------
+# an approximate operand in every operator position
+
+def approx_forms(k, r):
+    """expressions whose VALUE is exactly the integer k but which are computed from an approximate value"""
+    return ['(sqrt 2 - sqrt 2 + %d)' % k, '(approx. %d)' % k, '(floor(%d + 1/pi))' % k,      # f(x)^n parses as f(x^n): keep the parentheses
+            '(sqrt 3 / sqrt 3 * 0 + %d)' % k, '(approx. %d/2 * 2)' % k]
+
+
+def check_approx_subst(c):
+    r = c.rng
+    quick = c.tier == 'quick'
+    from math import comb, factorial
+    # (template with slots {0} {1} {2}, python value, unit suffix, slot value ranges)
+    T = [
+        ('{0} + {1}', lambda a, b: a + b, '', [(1, 9), (1, 9)]),
+        ('{0} - {1}', lambda a, b: a - b, '', [(5, 9), (1, 4)]),
+        ('{0} * {1}', lambda a, b: a * b, '', [(2, 9), (2, 9)]),
+        ('{0} / {1}', lambda a, b: Fraction(a, b), '', [(1, 9), (1, 8)]),
+        ('{0} ^ {1}', lambda a, b: a ** b, '', [(2, 5), (0, 5)]),
+        ('{0} ^ (-{1})', lambda a, b: Fraction(1, a ** b), '', [(2, 2), (1, 3)]),
+        ('{0} mod {1}', lambda a, b: a % b, '', [(5, 29), (2, 5)]),
+        ('({0} + {1}) * {2}', lambda a, b, c2: (a + b) * c2, '', [(1, 5), (1, 5), (2, 4)]),
+        ('{0} - {1} / {2}', lambda a, b, c2: a - Fraction(b, c2), '', [(3, 9), (1, 5), (1, 4)]),
+        ('{0} nCr {1}', lambda a, b: comb(a, b), '', [(4, 8), (1, 3)]),
+        ('{0} nPr {1}', lambda a, b: factorial(a) // factorial(a - b), '', [(4, 6), (1, 3)]),
+        ('{0}!', lambda a: factorial(a), '', [(2, 6)]),
+        ('abs(-{0})', lambda a: a, '', [(1, 9)]),
+        ('floor({0} / {1})', lambda a, b: a // b, '', [(5, 29), (2, 5)]),
+        ('round({0} / {1})', lambda a, b: int(Fraction(a, b) + Fraction(1, 2)), '', [(5, 29), (2, 5)]),
+        ('({0})^2 - {1}', lambda a, b: a * a - b, '', [(2, 9), (1, 3)]),
+        ('sqrt({0} * {0})', lambda a: a, '', [(2, 12)]),
+        ('({0} * {0} * {0})^(1/3)', lambda a: a, '', [(2, 6)]),
+        ('4^({1}/{0})', lambda a, b: 2 ** b, '', [(2, 2), (1, 5)]),
+        ('{0} << {1}', lambda a, b: a << b, '', [(1, 5), (1, 4)]),
+        ('{0} m * {1}', lambda a, b: a * b, ' m', [(2, 9), (2, 9)]),
+        ('{0} m to cm', lambda a: a * 100, ' cm', [(1, 9)]),
+        ('{0} kg / {1}', lambda a, b: Fraction(a, b), ' kg', [(2, 9), (1, 4)]),
+        ('{0} m + {1} cm', lambda a, b: a + Fraction(b, 100), ' m', [(1, 9), (1, 9)]),
+        ('{0} dozen + {1}', lambda a, b: 12 * a + b, '', [(1, 5), (1, 9)]),
+        ('({0} km)^2 to m^2', lambda a: a * a * 10 ** 6, ' m^2', [(1, 5)]),
+        ('real({0} + {1} i)', lambda a, b: a, '', [(1, 9), (1, 9)]),
+    ]
+    cases = []
+    per = 3 if quick else 40
+    for (tpl, fn, unit, ranges) in T:
+        for _ in range(per):
+            vals = [r.randrange(lo, hi + 1) for (lo, hi) in ranges]
+            try:
+                want = Fraction(fn(*vals))
+            except Exception:
+                continue
+            exact_expr = tpl.format(*['%d' % v for v in vals])
+            cases.append((exact_expr, want, unit, False, tpl))
+            for slot in range(len(vals)):
+                forms = approx_forms(vals[slot], r)
+                for form in ([r.choice(forms)] if quick else forms):
+                    args = ['%d' % v for v in vals]
+                    args[slot] = form
+                    cases.append((tpl.format(*args), want, unit, True, tpl))
+                # through a variable
+                args = ['%d' % v for v in vals]
+                args[slot] = 'x'
+                cases.append(('x = sqrt 2 - sqrt 2 + %d; %s' % (vals[slot], tpl.format(*args)), want, unit, True, tpl))
+    out = c.impl('fmt', [sx([Sym('eval'), 0, cps(e)]) for (e, w, u, a, t) in cases])
+    for (e, want, unit, approx, tpl), o in zip(cases, out):
+        c.note_case('sub:' + e, approx, 'approx-operand:' + tpl if approx else 'approx-operand:exact-baseline')
+        t, ex = F.render(want, 'auto', (5, 10), False, not approx)
+        expect = F.shown(t, ex) + unit
+        got = F.res_text(o)
+        if got != ('ok', expect):
+            c.violation('approximate-operand-marker-or-value-wrong', {'kind': 'impl-vs-spec', 'op': 'eval', 'expr': e, 'impl': got, 'expected': expect,
+                                                                      'approximate_operand': approx})
+
+
+# ---------------------------------------------------------------------------
+# roots and fractional powers of quantities with units
+
+KNOWN_UROOT = 'unit_root_overmarked'     # open: rational root marked approx. when coefficient and unit scale are rooted separately
+
+SCALE_UNITS = [('dozen', 12), ('score', 20), ('hundred', 100), ('thousand', 1000), ('million', 10 ** 6), ('billion', 10 ** 9), ('gross', 144)]
+
+
+def check_unit_roots(c):
+    r = c.rng
+    quick = c.tier == 'quick'
+    cases = []       # (expr, true radicand V, k, p, unit suffix expected when exact, scale note)
+    for _ in range(120 if quick else 2500):
+        k = r.choice([2, 2, 2, 3, 3, 4, 5])
+        uname, scale = r.choice(SCALE_UNITS)
+        kind = r.choice(['coef-perfect', 'total-perfect', 'both-perfect', 'neither'])
+        a = r.randrange(1, 12)
+        if kind == 'coef-perfect':
+            coef = Fraction(a ** k)
+        elif kind == 'both-perfect':
+            coef = Fraction(a ** k)
+            uname, scale = r.choice([u for u in SCALE_UNITS if perfect_root(u[1], k) is not None] or [('million', 10 ** 6)])
+            if perfect_root(scale, k) is None:
+                k = 2
+        elif kind == 'total-perfect':
+            # coefficient * scale is a perfect k-th power although neither factor is
+            need = 1
+            for f in F.prime_factors(scale):
+                e = 0
+                s2 = scale
+                while s2 % f == 0:
+                    s2 //= f
+                    e += 1
+                need *= f ** ((-e) % k)
+            coef = Fraction(need * a ** k)
+        else:
+            coef = Fraction(r.randrange(2, 200))
+        cs = '%d' % coef.numerator if coef.denominator == 1 else '(%d/%d)' % (coef.numerator, coef.denominator)
+        form = r.randrange(3)
+        if k == 2 and form == 0:
+            e = 'sqrt(%s %s)' % (cs, uname)
+        elif k == 3 and form == 0:
+            e = 'cbrt(%s %s)' % (cs, uname)
+        elif form == 1:
+            e = '(%s %s)^(1/%d)' % (cs, uname, k)
+        else:
+            e = '(%s %s)^(%d/%d)' % (cs, uname, 1, k)
+        cases.append((e, coef * scale, k, '', kind + ':' + uname, coef))
+    # physical units: the exponent of the unit is divided, only the coefficient is rooted
+    for _ in range(40 if quick else 600):
+        k = r.choice([2, 2, 3])
+        a = r.randrange(1, 15)
+        coef = r.choice([a ** k, a ** k, r.randrange(2, 99)])
+        unit = r.choice(['m', 'km', 'kg', 's', 'cm'])
+        e = ('sqrt(%d %s^2)' if k == 2 else 'cbrt(%d %s^3)') % (coef, unit)
+        cases.append((e, Fraction(coef), k, ' ' + unit, 'physical:' + unit, Fraction(coef)))
+        if k == 2:
+            cases.append(('sqrt(%d km^2) to m' % coef, Fraction(coef) * 10 ** 6, 2, ' m', 'physical:converted', Fraction(coef)))
+    out = c.impl('fmt', [sx([Sym('eval'), 0, cps(x[0])]) for x in cases])
+    for (e, V, k, unit, kind, coef), o in zip(cases, out):
+        c.note_case('uroot:' + e, True, 'unit-root:' + kind.split(':')[0])
+        got = F.res_text(o)
+        rn, rd = perfect_root(V.numerator, k), perfect_root(V.denominator, k)
+        rational = rn is not None and rd is not None
+        if got[0] != 'ok':
+            c.violation('unit-root-failed', {'kind': 'impl-vs-spec', 'op': 'eval', 'expr': e, 'impl': got})
+            continue
+        text = got[1]
+        marked = text.startswith('approx. ')
+        body = text[8:] if marked else text
+        if unit and not body.endswith(unit):
+            c.violation('unit-root-unit-wrong', {'kind': 'impl-vs-spec', 'op': 'eval', 'expr': e, 'impl': got, 'expected_unit': unit})
+            continue
+        num_txt = body[:len(body) - len(unit)] if unit else body
+        try:
+            val = Fraction(num_txt)
+        except Exception:
+            c.violation('unit-root-unreadable', {'kind': 'impl-vs-spec', 'op': 'eval', 'expr': e, 'impl': got})
+            continue
+        if rational:
+            root = Fraction(rn, rd)
+            t, ex = F.render(root, 'auto', (5, 10), False, True)
+            if not marked and text == F.shown(t, ex) + unit:
+                continue
+            # marked although the true result is rational: fend roots coefficient and unit scale separately
+            close = val > 0 and abs(val - root) <= Fraction(2, 10 ** 10) + root / 10 ** 12
+            sep_irrational = perfect_root(coef.numerator, k) is None or perfect_root(coef.denominator, k) is None
+            if marked and close and sep_irrational and c.known_finding(KNOWN_UROOT):
+                continue
+            c.violation('rational-unit-root-wrong', {'kind': 'impl-vs-spec', 'op': 'eval', 'expr': e, 'impl': got, 'true_root': str(root)})
+        else:
+            tol = Fraction(2, 10 ** 10)
+            lo, hi = max(val - tol, 0) * (1 - Fraction(1, 10 ** 12)), (val + tol) * (1 + Fraction(1, 10 ** 12))
+            ok = marked and val > 0 and lo ** k <= V <= hi ** k
+            if not ok:
+                c.violation('irrational-unit-root-unmarked-or-inaccurate', {'kind': 'impl-vs-spec', 'op': 'eval', 'expr': e, 'impl': got,
+                                                                            'radicand': str(V), 'root_index': k})
 
 
 # ---------------------------------------------------------------------------
@@ -852,6 +1157,9 @@ def check(c):
     check_pow(c)
     check_flags(c)
     check_real(c)
+    check_complex(c)
+    check_approx_subst(c)
+    check_unit_roots(c)
     check_l2(c)
 
 
